@@ -232,6 +232,41 @@ def _probe(f):
         return "probe-failed: %s" % type(e).__name__
 
 
+def _state_facts(f, horizons):
+    """for each horizon H: what the PUBLIC predict(H) returns now, and the forecast of the object's
+    current state (cutoff, remembered data, parameters) for H obtained through the forecasting
+    kernel `_predict` directly - both on deep copies, the history is not disturbed.  A forecast
+    remembered across a state change (memo, stale cutoff label) makes the two differ."""
+    import copy
+    out = []
+    for H in horizons:
+        if not H:
+            continue
+        try:
+            pub = _ser(copy.deepcopy(f).predict(list(H)))
+        except Exception as e:
+            pub = "public-predict-failed: %s" % type(e).__name__
+        try:
+            g = copy.deepcopy(f)
+            g._set_fh(list(H))
+            ker = _ser(g._predict(g.fh))
+        except Exception as e:
+            ker = "kernel-failed: %s" % type(e).__name__
+        out.append([list(H), pub, ker])
+    return out
+
+
+def _op_horizon(o, f_before_fh):
+    k = o[0]
+    if k == "predict":
+        return o[1]
+    if k == "ups":
+        return o[3]
+    if k == "updpred":
+        return o[3]["fh"] if o[3] is not None else f_before_fh
+    return None
+
+
 def run_impl(case):
     import copy
     import warnings
@@ -277,6 +312,15 @@ def run_impl(case):
         st["fh"] = _fh_of(f)
         st["par"] = _params(f)
         # ---- facts for the oracle, from the real classes ----
+        if st["ret"] != "err":
+            hs = []
+            for H in (PROBE_FH, st["fh"], _op_horizon(o, _fh_of(before))):
+                if H and list(H) not in hs:
+                    hs.append(list(H))
+            st["state_facts"] = _state_facts(f, hs)
+            if k == "updpred":
+                st["probe_before"] = _probe(before)
+                st["probe_after"] = _probe(f)
         if st["ret"] != "err" and spec["t"] in _SM:
             st["sm_probe"] = _probe(f)
             st["sm_ref"] = _sm_ref(f)
@@ -423,6 +467,34 @@ def oracle(case, out):
         if k == "updpred" and s["cut"] != s["cut_before"]:
             return "update-predict-did-not-restore-cutoff: %s: before %d after %d" % (
                 what, s["cut_before"], s["cut"])
+        # -- whatever was called before, predict(H) now is the forecast of the CURRENT state: own
+        #    cutoff (restored after update_predict), remembered data and parameters as they are now
+        for H, pub, ker in s.get("state_facts", ()):
+            if isinstance(pub, str) or isinstance(ker, str):
+                continue          # this horizon cannot be asked for here (e.g. stacking: horizon fixed)
+            if any(v is None for _, v in pub) or any(v is None for _, v in ker):
+                continue
+            if not c09._ser_close(pub, ker):
+                name = ("predict-after-update-predict-not-from-own-cutoff" if k == "updpred"
+                        else "predict-not-the-forecast-of-the-current-state")
+                return ("%s: %s: own cutoff %d, predict(%s) returns %s, the forecast of the current "
+                        "state for this horizon is %s" % (name, what, s["cut"], H, c09._show_ser(pub),
+                                                          c09._show_ser(ker)))
+            if spec["t"] not in ("ens", "pipe", "mux", "stack") \
+                    and [t for t, _ in pub] != [s["cut"] + h for h in H]:
+                return ("predict-not-indexed-from-own-cutoff: %s: own cutoff %d, predict(%s) is indexed "
+                        "%s" % (what, s["cut"], H, [t for t, _ in pub]))
+        # -- update_predict without parameter updating over data after the cutoff: cutoff, parameters
+        #    and everything remembered up to the cutoff are what they were: predict() is what it was
+        #    (not ThetaForecaster: its drift term uses len(self._y), the number of REMEMBERED
+        #    observations, which update_predict increases - the remembered data are not rolled back)
+        if k == "updpred" and not o[-1] and spec["t"] not in ("ens", "pipe", "mux", "stack", "theta") \
+                and o[1] > s["cut_before"] and not isinstance(s.get("probe_before"), (str, type(None))) \
+                and not isinstance(s.get("probe_after"), (str, type(None))):
+            if not c09._ser_close(s["probe_after"], s["probe_before"]):
+                return ("predict-after-update-predict-differs: %s (update_params=False): before %s, "
+                        "after %s" % (what, c09._show_ser(s["probe_before"]),
+                                      c09._show_ser(s["probe_after"])))
         # -- statsmodels-backed forecasters: forecasts are those of the fitted model extrapolated
         #    from the forecaster's CUTOFF (not from the end of the data it was last fitted on)
         if "sm_probe" in s:
@@ -528,6 +600,14 @@ def _gen_history(rng, spec, tier, fh_mode=None, max_ops=6, allow_fit=True, allow
         r = rng.random()
         if fh_mode == "predict-first" and i == 0:
             r = 0.5  # a predict(fh) first
+        # predict(fh); <state-changing call>; predict(fh) with the same (stored) horizon: a forecast
+        # remembered across the call would show
+        if have_fh and ops and ops[-1][0] in ("update", "ups", "updpred") and rng.random() < 0.3 \
+                and len(ops) < max_ops + 2:
+            ops.append(["predict", None])
+        if have_fh and r < 0.95 and (r < 0.40 or r >= 0.60) and rng.random() < 0.25 \
+                and (not ops or ops[-1][0] != "predict") and len(ops) < max_ops + 2:
+            ops.append(["predict", None])
         if r < 0.40:
             ln = rng.choice([1, 1, 2, 3])
             if rng.random() < 0.3:
